@@ -241,7 +241,7 @@ fn one_case_l(rng: &mut Rng, sink: &mut Sink) {
         } else if c < 25 {
             let Some(local) = conns[k].local.clone() else { continue };
             if conns[k].limit.is_some() && !rng.chance(1, 12) { continue; } // a second set_limit is API misuse (debug_assert): rare
-            let n = match rng.below(12) { 0 => 0, 1 => 1, 2 | 3 => 2, 4 | 5 => 3, 6 | 7 => 4, 8 => rng.range(5, 9), 9 => rng.range(9, 40), 10 => conns[k].next_seq, _ => conns[k].next_seq + 1 };
+            let n = match rng.below(15) { 0 => 0, 1 => 1, 2 | 3 => 2, 4 | 5 => 3, 6 | 7 => 4, 8 => rng.range(5, 9), 9 => rng.range(9, 40), 10 => conns[k].next_seq, 11 => conns[k].next_seq + 1, 12 => rng.range(40, 101), 13 => *rng.pick(&[63u64, 64, 65, 66, 100, 1000, 16384]), _ => conns[k].next_seq + 1 };
             let op = format!("setlimit {} {}", k, n);
             sink.pending(&op);
             let r = catch(|| local.set_limit(n));
@@ -740,6 +740,11 @@ impl RCase {
             set.insert(seq);
             set.iter().filter(|s| **s >= new_rpt && !self.retired.contains(s)).count()
         };
+        // fix-C04-newcid-seq-gap: a sequence number more than max(4096, limit) beyond the largest one received may be
+        // refused with CONNECTION_ID_LIMIT_ERROR (RFC 9000 5.1.1 lets an endpoint bound the ids it tracks)
+        let next_rcvd = self.received.keys().next_back().map(|m| m + 1).unwrap_or(0);
+        let far_ahead = seq.saturating_sub(next_rcvd) > 4096u64.max(self.limit);
+        if far_ahead { sink.branch("newcid:far-ahead(>max(4096,limit))"); }
         let r = catch(|| self.remote.recv_frame(frame));
         self.max_seq_seen = Some(self.max_seq_seen.unwrap_or(0).max(seq));
         match r {
@@ -759,7 +764,7 @@ impl RCase {
             Ok(Err(e)) => {
                 sink.branch("newcid:err");
                 if e.kind() != ErrorKind::ConnectionIdLimit { sink.monitor_fail("newcid_wrong_error", &format!("{:?}", e.kind())); }
-                if parseable && !dup_conflict && !self.conflict && would_active as u64 <= self.limit {
+                if parseable && !dup_conflict && !self.conflict && !far_ahead && would_active as u64 <= self.limit {
                     sink.monitor_fail("legal_issue_rejected", &format!("NEW_CONNECTION_ID seq={} retire_prior_to={} would leave {} active ids (limit {}) but was rejected with CONNECTION_ID_LIMIT_ERROR", seq, rpt, would_active, self.limit));
                 }
                 self.closed = true;
@@ -937,7 +942,7 @@ fn burst(c: &mut RCase, rng: &mut Rng, limit: u64, peer_next: &mut u64, peer_rpt
 }
 
 fn one_case_r(rng: &mut Rng, brng: &mut Rng, sink: &mut Sink) {
-    let limit = match rng.below(10) { 0..=3 => 2, 4..=6 => 3, 7 => 4, 8 => rng.range(5, 9), _ => rng.range(2, 5) };
+    let limit = match rng.below(12) { 0..=3 => 2, 4..=6 => 3, 7 => 4, 8 => rng.range(5, 9), 9 => rng.range(9, 101), _ => rng.range(2, 5) };
     let mut c = RCase::new(limit);
     sink.line(&format!("init {}", limit), "ok");
     // the simulated peer: ids it has issued, its retire_prior_to, frames in flight (reordering / duplication)
@@ -988,7 +993,7 @@ fn one_case_r(rng: &mut Rng, brng: &mut Rng, sink: &mut Sink) {
             c.newcid(seq, rpt, &format!("x{}", seq), sink);
         } else if k < 68 {
             // arbitrary frame
-            let seq = match rng.below(8) { 0 => rng.range(0, 3), 1 => peer_next + rng.range(1, 6), 2 => rng.range(100, 3000), _ => rng.range(0, 12) };
+            let seq = match rng.below(9) { 0 => rng.range(0, 3), 1 => peer_next + rng.range(1, 6), 2 => rng.range(100, 3000), 3 => peer_next + rng.range(4088, 4112), _ => rng.range(0, 12) };
             let rpt = match rng.below(8) { 0 => seq + rng.range(1, 3), 1 => seq, 2 => seq.saturating_sub(1), 3 => 0, _ => rng.below(seq + 1) };
             let name = if rng.chance(1, 6) { conflicts += 1; format!("x{}", 100000 + conflicts) } else { format!("x{}", seq) };
             peer_next = peer_next.max(seq + 1);
